@@ -110,6 +110,9 @@ type Layer struct {
 
 type Push struct {
 	Layers  []Layer `json:"layers,omitempty"` // kind M
+	// Fail (kind U): 1 the gzip blob fails verification, 2 the tar stream breaks off after the
+	// entries, 3 the digest annotation of the uncompressed tar does not match
+	Fail int `json:"fail,omitempty"`
 	Kind    string  `json:"kind"` // B | U | M (unnamed image manifest with named layers: restoreDuplicates)
 	Title   string  `json:"title"`
 	Tag     int     `json:"tag,omitempty"`
@@ -376,7 +379,9 @@ func listing() string {
 	return strings.Join(items, ",")
 }
 
-func buildTarGz(es []Entry) []byte {
+func buildTarGz(es []Entry) []byte { return buildTarGzF(es, false) }
+
+func buildTarGzF(es []Entry, broken bool) []byte {
 	var buf bytes.Buffer
 	gz := gzip.NewWriter(&buf)
 	tw := tar.NewWriter(gz)
@@ -407,7 +412,13 @@ func buildTarGz(es []Entry) []byte {
 			}
 		}
 	}
-	tw.Close()
+	if broken {
+		// no end-of-archive marker but a block that is not a header
+		tw.Flush()
+		gz.Write(bytes.Repeat([]byte("x"), 512))
+	} else {
+		tw.Close()
+	}
 	gz.Close()
 	return buf.Bytes()
 }
@@ -494,7 +505,11 @@ func modelLine(c Case, cfg string) string {
 			}
 			continue
 		}
-		fmt.Fprintf(&sb, " U %s %d", common.Hex(p.Title), len(p.Entries))
+		if p.Fail != 0 {
+			fmt.Fprintf(&sb, " F %d %s %d", p.Fail, common.Hex(p.Title), len(p.Entries))
+		} else {
+			fmt.Fprintf(&sb, " U %s %d", common.Hex(p.Title), len(p.Entries))
+		}
 		for _, e := range p.Entries {
 			switch e.Kind {
 			case "r":
@@ -617,8 +632,14 @@ func runCase(c Case) {
 			ann = nil
 			hasManifest = true
 		default:
-			blob = buildTarGz(p.Entries)
+			blob = buildTarGzF(p.Entries, p.Fail == 2)
 			ann[file.AnnotationUnpack] = "true"
+			switch p.Fail {
+			case 1:
+				dgst = digest.FromBytes(append(append([]byte{}, blob...), 'x'))
+			case 3:
+				ann[file.AnnotationDigest] = digest.FromBytes([]byte("not this tar")).String()
+			}
 		}
 		if dgst == "" {
 			dgst = digest.FromBytes(blob)
@@ -999,6 +1020,10 @@ func genRandom(r *common.Rand) Case {
 		}
 		if r.Chance(2, 3) {
 			c.Pushes = append(c.Pushes, genUnpack(r, title, &earlier, &tag))
+			if r.Chance(1, 8) {
+				c.Pushes[len(c.Pushes)-1].Fail = 1 + r.Intn(3)
+				run.Count("failing-archive")
+			}
 		} else {
 			tag++
 			if len(earlier) > 0 && r.Chance(1, 4) {
